@@ -374,6 +374,7 @@ type vtC07G struct {
 	r     *rand.Rand
 	style string
 	inv   [][]int64 // current inventory records (type minor health v0 v1 v2 numa pcie)
+	topo  bool      // GPUs carry NUMA / PCIe topology
 	tried []int64   // pods for which a schedule / foreign add was generated and no release yet
 	next  int64
 }
@@ -391,11 +392,20 @@ func (g *vtC07G) genInventory() [][]int64 {
 	}
 	mem := g.pick(16000, 81920, 1<<34, 24576, 1000, 7)
 	minor := int64(0)
+	topo := g.topo
+	if topo && r.Intn(3) != 0 {
+		ng = 2 + r.Intn(5)
+	}
+	numas := int64(1 + r.Intn(2))
 	for i := 0; i < ng; i++ {
 		if r.Intn(5) == 0 {
 			minor++ // gap in the minor numbering
 		}
 		rec := []int64{0, minor, 1, 100, 100, mem, -1, 0}
+		if topo && r.Intn(25) != 0 {
+			rec[6] = int64(r.Intn(int(numas)))
+			rec[7] = rec[6]*2 + int64(r.Intn(2)) // PCIe ids are unique across NUMA nodes
+		}
 		if r.Intn(8) == 0 {
 			rec[2] = 0 // unhealthy
 		}
@@ -629,6 +639,7 @@ func (g *vtC07G) allocList() []int64 {
 func vtC07Gen(r *rand.Rand, i int) (string, []int64) {
 	g := &vtC07G{r: r}
 	g.style = []string{"plain", "plain", "plain", "churn", "churn", "degenerate"}[r.Intn(6)]
+	g.topo = r.Intn(5) < 2
 	nops := 3 + r.Intn(12)
 	var ops [][]int64
 	ops = append(ops, g.refreshOp())
@@ -675,7 +686,11 @@ func vtC07Gen(r *rand.Rand, i int) (string, []int64) {
 	for _, o := range ops {
 		in = append(in, o...)
 	}
-	return g.style, in
+	label := g.style
+	if g.topo {
+		label += "+topo"
+	}
+	return label, in
 }
 
 func TestVerifC07(t *testing.T) {
